@@ -1,6 +1,9 @@
 use std::convert::TryFrom;
+use std::ops::Deref;
 
 use crate::check::constrain::constraint::builder::ConstrBuilder;
+use crate::check::constrain::constraint::expected::Expect::Type;
+use crate::check::constrain::constraint::expected::Expected;
 use crate::check::constrain::generate::definition::id_from_var;
 use crate::check::constrain::generate::env::Environment;
 use crate::check::constrain::generate::{gen_vec, generate, Constrained};
@@ -18,6 +21,25 @@ pub fn gen_class(
     ctx: &Context,
     constr: &mut ConstrBuilder,
 ) -> Constrained {
+    if let Node::Class { args, .. } = &ast.node {
+        // the default of a class argument is an expression of the type of that argument
+        for arg in args {
+            let (ty, default) = match &arg.node {
+                Node::VariableDef { ty, expr, .. } => (ty, expr),
+                Node::FunArg { ty, default, .. } => (ty, default),
+                _ => continue,
+            };
+            if let Some(default) = default {
+                generate(default, &env.is_expr(true), ctx, constr)?;
+                if let Some(ty) = ty {
+                    let name = Name::try_from(ty.deref())?;
+                    let ty = Expected::new(ty.pos, &Type { name });
+                    constr.add("class argument default", &ty, &Expected::from(default.deref()), env);
+                }
+            }
+        }
+    }
+
     match &ast.node {
         Node::Class {
             body: Some(body),
